@@ -485,6 +485,102 @@ def run_stack_representation(ctx):
             ctx.disagree('Sh.stack: the model\'s result is not well formed (PT.wf)', case, want, rep)
 
 
+def run_iter_representation(ctx):
+    """the model `It.*` (FggsModel/Iter.lean) of dim_to_dense, __iter__ and tolist predicts the REPRESENTATION of dim_to_dense(dim) and of
+    every element of list(iter(t)), and the flattened tolist(); compared token by token up to a renaming of the physical axes"""
+    from .unifygen import canon
+    from .common import enc_ext, dec_ext
+    reqs, meta = [], []
+    def enc(p_, ids, pfx=''):
+        pa = enc_list(p_.paxes, lambda k_: f'{pfx}{ids.setdefault(id(k_), len(ids))} {k_._numel}')
+        def ea(e):
+            if isinstance(e, PhysicalAxis): return f'P {ids.setdefault(id(e), len(ids))} {e._numel}'
+            from fggs.indices import ProductAxis as _X
+            if isinstance(e, _X): return 'X ' + enc_list(e.factors, ea)
+            return f'S {e.before} {ea(e.term)} {e.after}'
+        return f'{enc_list(p_.physical.contiguous().reshape(-1).tolist() if p_.physical.numel() else [], enc_ext)} {pa} {enc_list(p_.vaxes, ea)} {enc_ext(float(p_.default))}'
+    def flat(x):
+        return [y for z in x for y in flat(z)] if isinstance(x, list) else [x]
+    for k in range(50 if ctx.quick else 1000):
+        nd = ctx.rng.choice([1, 1, 2, 2, 3])
+        types = [ptgen.random_type(ctx.rng, depth=ctx.rng.choice([1, 2, 2]), sizes=[1, 2, 3, 2, 4]) for _ in range(nd)]
+        if math.prod(ty_numel(t) for t in types) > 200:
+            continue
+        t = random_pt(ctx.rng, types, defaults=[0.0, 1.0, -math.inf], specials=0.0)
+        if any(k_._numel == 0 for k_ in t.paxes):
+            continue
+        ids = {}
+        et = enc(t, ids)
+        nxt = len(ids) + 5
+        dim = ctx.rng.randrange(nd)
+        for op, f, arg in (('dimToDense', lambda x: [x.dim_to_dense(dim)], f'{dim} '), ('iter', lambda x: list(iter(x)), ''),
+                           ('tolist', lambda x: x.tolist(), '')):
+            case = dict(op=op, operand=et, dim=dim)
+            try:
+                r = f(t)
+            except VerifInvariantError as e:
+                ctx.fail(f'{op}: the library constructed a PatternedTensor that violates the representation invariant: {e}', case, repr(e), None, tags=['invariant', op])
+                continue
+            except Exception as e:  # noqa
+                ctx.fail(f'{op} raised {type(e).__name__}: {str(e)[:80]}', case, repr(e), None, tags=['raises', op, type(e).__name__])
+                continue
+            if op == 'tolist':
+                want = ' '.join(enc_ext(float(v)) for v in flat(r))
+                if flat(r) != t.to_dense().reshape(-1).tolist() and not all(a == b or (a != a and b != b) for a, b in zip(flat(r), t.to_dense().reshape(-1).tolist())):
+                    ctx.fail('tolist() is not the nested list of the dense tensor', case, flat(r), t.to_dense().reshape(-1).tolist(), tags=['value', 'tolist'])
+            else:
+                dense_want = [t.to_dense()] if op == 'dimToDense' else list(t.to_dense())
+                if len(r) != len(dense_want) or not all(same_dense(a.to_dense(), b, 0.0) for a, b in zip(r, dense_want)):
+                    ctx.fail(f'{op}: the result does not denote the dense tensor / its slices', case, None, None, tags=['value', op])
+                wants = []
+                for x in r:
+                    ids2 = dict(ids)
+                    wants.append(enc(x, ids2, 'P '))
+                want = wants
+            reqs.append(f'C06.{op} {et} {arg}{nxt}')
+            meta.append((case, op, want))
+            ctx.count(f'iter-representation.{op}')
+    def split_pt(toks, i):
+        L = int(toks[i]); phys = toks[i + 1:i + 1 + L]; i += 1 + L
+        P = int(toks[i]); pax = toks[i + 1:i + 1 + 2 * P]; i += 1 + 2 * P
+        out = [str(L)] + phys + [str(P)] + sum((['P', pax[2 * j], pax[2 * j + 1]] for j in range(P)), [])
+        # vaxes list and default follow: copy tokens until the wf flag (a single T/F after the default)
+        return out, i
+    for (case, op, want), rep in zip(meta, ctx.driver.ask_many(reqs)):
+        if isinstance(rep, Exception):
+            raise rep
+        ctx.evaluations += 1
+        if not rep.startswith('ok'):
+            ctx.disagree(f'It.{op}: the model raises where the library returns', case, 'ok', rep[:80])
+            continue
+        toks = rep.split()[1:]
+        if op == 'tolist':
+            n = int(toks[0]); vals = toks[1:1 + n]
+            if vals != want.split() or toks[-1] != 'T':
+                ctx.disagree('It.tolist: flattened list (and its equality with PT.dense)', case, want, ' '.join(toks))
+            continue
+        if op == 'dimToDense':
+            head, i = split_pt(toks, 0)
+            mp = head + toks[i:-1]
+            if canon(mp) != canon(want[0].split()) or toks[-1] != 'T':
+                ctx.disagree('It.dimToDense: representation of the result', case, want[0], ' '.join(mp))
+            continue
+        # iter: a list of tensors, each followed by its wf flag
+        cnt = int(toks[0]); i = 1; ok = cnt == len(want)
+        for w in want:
+            if not ok:
+                break
+            head, j = split_pt(toks, i)
+            # the vaxes list + default: read until the wf flag; lengths are known from the expected encoding
+            wl = w.split()
+            body = toks[j:j + (len(wl) - len(head))]
+            flag = toks[j + (len(wl) - len(head))] if j + (len(wl) - len(head)) < len(toks) else 'F'
+            ok = ok and canon(head + body) == canon(wl) and flag == 'T'
+            i = j + (len(wl) - len(head)) + 1
+        if not ok:
+            ctx.disagree('It.iter: representation of the elements of list(iter(t))', case, want, ' '.join(toks)[:600])
+
+
 def run_unit_factors(ctx, reqs, meta):
     """index types with a factor of ONE element that is not the unit axis (a one-component sum `0 + () + 0`, as patterned JSON
     weights can spell it) at the start, in the middle or at the END of a product, each operand representing the same type in its own
@@ -587,6 +683,7 @@ def run(ctx):
     run_reshape_representation(ctx)
     run_shape_representation(ctx)
     run_stack_representation(ctx)
+    run_iter_representation(ctx)
     reqs, meta = [], []
     run_unit_factors(ctx, reqs, meta)
     U, B = unary_ops(), binary_ops()
